@@ -34,6 +34,7 @@ Base == [camel |-> FALSE, query |-> "Query", mutation |-> "", subscription |-> "
        fields |-> << Fld(<<"user", "name">>, Named("String"), <<>>, "user_name", "r_user_name", ""),
                      Fld(<<"node">>, Named("Node"), <<ArgD(<<"node", "id">>, Named("ID"), "node_id", [k |-> "str", v |-> "n1"])>>, "node", "r_node", ""),
                      Fld(<<"find", "items">>, ListOf(Named("Item")), <<Arg(<<"filter", "by">>, Named("Filter"), "filter_by")>>, "find_items", "r_find", "old way"),
+                     Fld(<<"find", "any">>, Named("U"), <<>>, "find_any", "", ""),
                      Fld(<<"any">>, Named("U"), <<>>, "any", "", ""),
                      Fld(<<"level">>, Named("Level"), <<>>, "level", "r_level", ""),
                      Fld(<<"meta">>, Named("_Meta"), <<>>, "meta", "", "") >>],
@@ -70,10 +71,12 @@ Preds == { [p |-> "type", t |-> "Person", f |-> <<>>], [p |-> "type", t |-> "Lev
            [p |-> "type", t |-> "U", f |-> <<>>], [p |-> "type", t |-> "Node", f |-> <<>>], [p |-> "type", t |-> "Sub", f |-> <<>>],
            [p |-> "field", t |-> "Query", f |-> <<"find", "items">>], [p |-> "field", t |-> "Item", f |-> <<"owner">>],
            [p |-> "field", t |-> "Node", f |-> <<"node", "id">>],
+           \* "fields": every field of the type whose FIRST word is f[1] - two ADJACENT fields of Query (find_items, find_any below)
+           [p |-> "fields", t |-> "Query", f |-> <<"find">>],
            [p |-> "input", t |-> "Filter", f |-> <<"min", "size">>], [p |-> "directive", t |-> "my_dir", f |-> <<>>] }
 HiddenType(p, n) == p.p = "type" /\ p.t = n
 \* closure: an element whose type is hidden disappears too
-FieldVisible(p, tn, fl) == ~(p.p = "field" /\ p.t = tn /\ p.f = fl.w) /\ ~HiddenType(p, Inner(fl.type))
+FieldVisible(p, tn, fl) == ~(p.p = "field" /\ p.t = tn /\ p.f = fl.w) /\ ~(p.p = "fields" /\ p.t = tn /\ fl.w[1] = p.f[1]) /\ ~HiddenType(p, Inner(fl.type))
 ArgVisible(p, a) == ~HiddenType(p, Inner(a.type))
 InputVisible(p, tn, a) == ~(p.p = "input" /\ p.t = tn /\ p.f = a.w) /\ ~HiddenType(p, Inner(a.type))
 HideType(p, t) ==
